@@ -119,6 +119,12 @@ class Ctx:
             t = MM.deref_all(I, st, args[0])
             inr = z3.And(t.term >= -2 ** 63, t.term < 2 ** 63)
             return MM.ret(st, EnumV("Option", z3.If(inr, 1, 0), {1: (t.term,)}))
+        if re.search(r"DateTime::<(chrono::)?Utc>::timestamp$", f):
+            t = MM.deref_all(I, st, args[0])
+            return MM.ret(st, t.term / 10 ** 9)  # floor division: seconds since the epoch (SMT-LIB div with a positive divisor = floor)
+        if re.search(r"DateTime::<(chrono::)?Utc>::timestamp_subsec_nanos$", f):
+            t = MM.deref_all(I, st, args[0])
+            return MM.ret(st, t.term % 10 ** 9)
         if re.search(r"ProtocolParameters::phi_f_fixed$", f):
             pp = MM.deref_all(I, st, args[0])
             names = [n for n, t in self.db.struct_fields("ProtocolParameters")]
@@ -237,3 +243,379 @@ def build_certificate(ctx, prefix, nsigners, pm_keys=PM_KEYS_DEFAULT):
                 r"ProtocolKey<.*>|ProtocolAggregateVerificationKey.*|ProtocolMultiSignature|GenesisEd25519Signature|Ed25519Signature|ProtocolAncillary.*Data": "key"}
     sb = symval.SymBuilder(ctx.db, I, abstract=abstract, vec_lengths=[(r".*\.signers", nsigners)])
     return sb.make("Certificate", prefix), sb
+
+
+def liveness(name, vars_):
+    """condition under which the leaf `name` is part of the certificate value (its enum variant / Option is the active one)"""
+    conds = []
+    segs = name.split(".")
+    for i in range(1, len(segs)):
+        pre = ".".join(segs[:i])
+        if pre + ".is_some" in vars_ and segs[i] == "some":
+            conds.append(vars_[pre + ".is_some"] == 1)
+        if pre + ".discr" in vars_ and segs[i] != "discr":
+            conds.append(("variant", pre, segs[i]))
+    return conds
+
+
+def relation(ctx, outs, h):
+    """h is the hash returned by the symbolic run: Or over its Ok paths"""
+    return z3.Or([z3.And(list(o.pc) + [h == o.value.payloads[0][0].term]) for o in outs if o.kind == "return" and o.value.discr == 0])
+
+
+def run_hash(ctx, prog, nsigners, pm_keys=PM_KEYS_DEFAULT):
+    cert, sb = build_certificate(ctx, "c", nsigners, pm_keys)
+    f = prog.find_one(r"entities/certificate\.rs.*>::try_compute_hash$")
+    st = MI.State()
+    for c in sb.constraints:
+        st.assume(c)
+    ctx.I.frame_counter += 1
+    fr = ctx.I.frame_counter
+    st.mem[(fr, 0)] = cert
+    n0 = len(ctx.axioms)
+    outs = ctx.I.call_fn(f, [Ref(fr, 0, ())], st)
+    bad = [o for o in outs if o.kind != "return"]
+    if bad:
+        raise Unencodable("try_compute_hash: %s %s" % (bad[0].kind, bad[0].msg))
+    return cert, sb, outs, list(ctx.axioms[n0:])
+
+
+QUICK_DIRECT = 10
+
+
+ENUM_OF_PREFIX = [(r"\.signature$", "CertificateSignature"), (r"\.MultiSignature\.0$", "SignedEntityType")]
+
+
+def variant_cond(ctx, V, pre, variant):
+    for rx, en in ENUM_OF_PREFIX:
+        if re.search(rx, pre):
+            return V[pre + ".discr"] == ctx.I.variant_index(en, variant)
+    raise Unencodable("enum at %s unknown" % pre)
+
+
+def zstr_value(model, term):
+    v = model.eval(term, model_completion=True)
+    try:
+        s = v.as_string()
+    except Exception:
+        s = str(v)
+    # z3 escapes non-printable characters as \u{..}
+    return re.sub(r"\\u\{([0-9a-fA-F]+)\}", lambda m: chr(int(m.group(1), 16)), s)
+
+
+def native_cert_hash(rows):
+    from checks.c17 import native_query
+    lines = native_query(["cert_hash " + json.dumps(r).encode().hex() for r in rows])
+    return [l for l in lines if l.startswith(("equal", "different", "unsupported"))]
+
+
+def entity_spec(ctx, model, V, pre, discr_val):
+    names = ctx.I.load_enum("SignedEntityType")
+    names = list(names.keys()) if isinstance(names, dict) else list(names)
+    vn = [n for n in names if ctx.I.variant_index("SignedEntityType", n) == discr_val][0]
+    nums = []
+    for k in sorted(V):
+        if k.startswith(pre + "." + vn + "."):
+            nums.append(str(model.eval(V[k], model_completion=True)))
+    return ":".join([vn] + nums)
+
+
+def run(tier, seed):
+    rep = core.Report("C04", tier, seed)
+    rep.trusted_base = ["rustc nightly MIR", "mir2smt interpreter + hasher / encoder call models", "z3 (sequence theory) for the certificate queries, cvc5 (strings) for the protocol-message code lemma"]
+    rep.functions = ["source hashes: %s" % core.source_hashes(SRC)]
+    NS = 1 if tier == "quick" else 2
+    rep.bounds = {"signers_in_metadata": "%d and %d (list length difference)" % (NS, NS + 1), "string_lengths": "unbounded (solver sequence theory)",
+                  "protocol_message_key_set_in_certificate_runs": list(PM_KEYS_DEFAULT)}
+    rep.assumptions = [
+        "SHA-256 is collision resistant: an injective uninterpreted function of the concatenation of everything fed to the hasher; hex::encode is injective and doubles the length",
+        "u64/i64::to_be_bytes: injective, 8 bytes; U8F24::to_be_bytes: injective, 4 bytes",
+        "ProtocolKey::to_json_hex / to_bytes_hex / to_bytes of keys, signatures and ancillary data: injective per type, non-empty, always Ok; an Ed25519 genesis signature encodes to 128 characters and a multi-signature's JSON-hex to more than 128",
+        "protocol parameters are compared at the protocol's fixed-point precision: phi_f differs means U8F24::from_num(phi_f) differs (from_num is an uninterpreted function of the float)",
+        "chrono::DateTime<Utc>: nanoseconds since the Unix epoch as an unbounded integer within chrono's +-262000 years; timestamp_nanos_opt is Some exactly inside i64",
+        "default cargo features (no future_snark: no SNARK aggregate key, no dual genesis signature, legacy protocol-message hash scheme)",
+    ]
+    rep.outside = ["JSON text layer (serde_json): float formatting/parsing of phi_f, RFC 3339 timestamps", "differences in two or more fields at once (the property speaks of single fields; adjacent variable-length fields are not length-prefixed)",
+                   "the `hash` field itself (it is the output)", "SHA-256 / hex internals"]
+    rep.solver_vars = ["every string field: all contents, all lengths", "every integer field over its full machine range", "timestamps over chrono's full range", "signature kind, signed entity type and its beacon fields, presence of ancillary data"]
+    try:
+        path, dt = mir.dump("mithril-common")
+    except Exception as e:
+        rep.inconcl("MIR dump failed: %s" % e)
+        return rep.finish()
+    prog = MI.Program(open(path).read(), source_root=os.path.join(core.REPO, "mithril-common"))
+    tmo = 60 if tier == "quick" else 300
+    failures = []
+    try:
+        ctx = Ctx(prog)
+        cert, sb, outs, axioms = run_hash(ctx, prog, NS)
+        V = sb.vars
+        h = z3.String("certificate_hash")
+        phi1 = relation(ctx, outs, h)
+        # shape facts of the encoders (see assumptions)
+        shape = []
+        for kind, (e, d) in ctx.ENC.items():
+            pass
+        base = [phi1] + axioms + list(sb.constraints)
+        ob = rep.add(core.Obligation("c04_witness_hash", "smt", "witness: some certificate has a hash (the encoding is satisfiable)", {"paths": len(outs)}))
+        r = smt.check([z3.Or([z3.And(list(o.pc)) for o in outs if o.kind == "return" and o.value.discr == 0])] + list(sb.constraints), timeout_s=tmo)
+        ob.solver_s = r.seconds
+        ob.status = "discharged" if r.status == "sat" else "inconclusive"
+        if r.status != "sat":
+            rep.inconcl("witness: %s" % r.status)
+
+        def enc_shape(ax_list):
+            """length facts about genesis-signature and multi-signature encodings found among the axiom instances"""
+            facts = []
+            for kind, (e, d) in ctx.ENC.items():
+                for nm, var in V.items():
+                    if z3.is_int(var) and nm.endswith(("GenesisSignature.0",)) and "Signature_to_bytes_hex" in kind or False:
+                        pass
+            return facts
+
+        def query(name, desc, pairs, differ, extra=(), role=None, field=None, replay_builder=None):
+            phi2 = z3.substitute(phi1, *pairs)
+            ax2 = [z3.substitute(a, *pairs) for a in axioms]
+            c2 = [z3.substitute(c, *pairs) for c in sb.constraints]
+            ob = rep.add(core.Obligation(name, "smt", desc, {"vccs": 1}))
+            shape_facts = sig_shape(pairs)
+            r = smt.check(base + [phi2] + ax2 + c2 + [differ] + list(extra) + shape_facts, timeout_s=QUICK_DIRECT)
+            ob.solver_s = r.seconds
+            model = r.model if r.status == "sat" else None
+            if r.status == "unsat":
+                ob.status = "discharged"
+                return ob
+            if model is None:
+                # the sequence solver does not produce models for these formulas: search with the aligned-atom decomposition
+                import time as _t
+                t0 = _t.time()
+                m = counterexample_search(ctx, outs, pairs, list(sb.constraints) + c2 + [differ] + list(extra) + shape_facts, axioms, tmo)
+                ob.solver_s += _t.time() - t0
+                ob.bounds["decided_by"] = "aligned-atom decomposition (direct string query: %s)" % r.status
+                if m is None:
+                    ob.status = "discharged"
+                    return ob
+                if m == "unknown":
+                    ob.status = "inconclusive"
+                    rep.inconcl("%s: %s" % (name, r.reason or "solver gave up"))
+                    return ob
+                model = m
+            ob.status = "failed"
+            ob.role = role or ("c04-" + name[len("c04_"):])
+            spec = replay_builder(model) if replay_builder else None
+            ob.counterexample = {"field": field, "spec": spec}
+            failures.append((ob, spec))
+            return ob
+
+        def sig_shape(pairs):
+            facts = []
+            for kind, (e, d) in ctx.ENC.items():
+                terms = [V[n] for n in V if z3.is_int(V[n])] + [p[1] for p in pairs if z3.is_int(p[1])]
+                if "to_bytes_hex" in kind and ("Signature" in kind or "ed25519" in kind.lower()):
+                    for n in V:
+                        if n.endswith("GenesisSignature.0"):
+                            for t in [V[n]] + [p[1] for p in pairs if p[0] is V[n]]:
+                                facts.append(z3.Length(e(t)) == 128)
+                if "to_json_hex" in kind and "AggregateSignature" in kind:
+                    for n in V:
+                        if n.endswith("MultiSignature.1"):
+                            for t in [V[n]] + [p[1] for p in pairs if p[0] is V[n]]:
+                                facts.append(z3.Length(e(t)) > 128)
+            return facts
+
+        def fresh(var, name):
+            if z3.is_string(var):
+                return z3.String(name + "'")
+            return z3.Int(name + "'")
+
+        def live_of(name):
+            conds = []
+            for c in liveness(name, V):
+                conds.append(variant_cond(ctx, V, c[1], c[2]) if isinstance(c, tuple) else c)
+            return conds
+
+        def simple_spec(field, kind):
+            def build(model):
+                x, y = V[field], fresh(V[field], field)
+                if kind == "str":
+                    return {"field": field[2:], "a": zstr_value(model, x).encode().hex(), "b": zstr_value(model, y).encode().hex()}
+                return {"field": field[2:], "a": str(model.eval(x, model_completion=True)), "b": str(model.eval(y, model_completion=True))}
+            return build
+
+        for name in sorted(V):
+            if name == "c.hash" or name.endswith(".discr") and "MultiSignature.0" in name:
+                continue
+            var = V[name]
+            x2 = fresh(var, name)
+            pairs = [(var, x2)]
+            short = re.sub(r"[^A-Za-z0-9]+", "_", name[2:])
+            live = live_of(name)
+            if name.endswith("phi_f"):
+                query("c04_field_" + short, "two certificates that differ only in phi_f (at U8F24 precision) have different hashes", pairs, ctx.FIX(var) != ctx.FIX(x2), live, field=name, replay_builder=simple_spec(name, "int"))
+            elif name.endswith(("initiated_at", "sealed_at")):
+                inr = [var >= -2 ** 63, var < 2 ** 63, x2 >= -2 ** 63, x2 < 2 ** 63]
+                query("c04_field_" + short + "_within_i64_nanoseconds", "two certificates that differ only in %s (both within the i64-nanosecond range, years 1677..2262) have different hashes" % name[2:], pairs, var != x2, live + inr,
+                      field=name, replay_builder=simple_spec(name, "int"))
+                query("c04_field_" + short + "_any", "two certificates that differ only in %s (any representable time) have different hashes" % name[2:], pairs, var != x2, live,
+                      role="c04-timestamp-outside-i64-nanoseconds-" + name.split(".")[-1], field=name, replay_builder=simple_spec(name, "int"))
+            elif name.endswith(".is_some") or name == "c.signature.discr":
+                query("c04_field_" + short, "two certificates that differ only in %s have different hashes" % name[2:], pairs, var != x2, live, field=name, replay_builder=simple_spec(name, "int"))
+            else:
+                query("c04_field_" + short, "two certificates that differ only in %s have different hashes (all values)" % name[2:], pairs, var != x2, live,
+                      field=name, replay_builder=simple_spec(name, "str" if z3.is_string(var) else "int"))
+        # signed entity type: every pair of variants, payloads arbitrary on both sides
+        pre = [n for n in V if n.endswith("MultiSignature.0.discr")]
+        if pre:
+            dname = pre[0]
+            epre = dname[:-len(".discr")]
+            names = ctx.I.load_enum("SignedEntityType")
+            names = list(names.keys()) if isinstance(names, dict) else list(names)
+            evars = [n for n in V if n.startswith(epre + ".") and n != dname]
+            for a_i, b_i in itertools.combinations(range(len(names)), 2):
+                va, vb = names[a_i], names[b_i]
+                pairs = [(V[dname], z3.IntVal(ctx.I.variant_index("SignedEntityType", vb)))] + [(V[n], fresh(V[n], n)) for n in evars]
+                ia, ib = ctx.I.variant_index("SignedEntityType", va), ctx.I.variant_index("SignedEntityType", vb)
+
+                def build(model, ia=ia, ib=ib, pairs=pairs):
+                    m2 = {p[0].decl().name(): p[1] for p in pairs}
+                    V2 = {n: (m2.get(V[n].decl().name(), V[n]) if z3.is_const(V[n]) else V[n]) for n in V}
+                    return {"field": "signature.entity", "a": entity_spec(ctx, model, V, epre, ia), "b": entity_spec(ctx, model, V2, epre, ib)}
+                query("c04_entity_type_%s_vs_%s" % (va, vb), "a certificate signed for %s(..) and one signed for %s(..), equal in every other field, have different hashes (all beacon values)" % (va, vb),
+                      pairs, z3.BoolVal(True), live_of(dname) + [V[dname] == ia], role="c04-signed-entity-type-%s-vs-%s" % (va, vb), field="signature.entity", replay_builder=build)
+        # list of signers: one more party
+        ctx_b = ctx
+        cert_b, sb_b, outs_b, axioms_b = run_hash(ctx_b, prog, NS + 1)
+        phi_b = relation(ctx_b, outs_b, h)
+        ob = rep.add(core.Obligation("c04_signers_list_length", "smt", "a certificate with %d signers in its metadata and one with the same %d plus one more have different hashes" % (NS, NS)))
+        r = smt.check(base + [phi_b] + axioms_b + list(sb_b.constraints), timeout_s=tmo)
+        ob.solver_s = r.seconds
+        ob.status = "discharged" if r.status == "unsat" else "failed" if r.status == "sat" else "inconclusive"
+        if r.status == "sat":
+            ob.role = "c04-signers_list_length"
+            spec = {"field": "metadata.signers.len", "a": "0", "b": "1"}
+            ob.counterexample = {"field": "metadata.signers", "spec": spec}
+            failures.append((ob, spec))
+        elif r.status != "unsat":
+            rep.inconcl("signers list length: %s" % r.reason)
+        rep.functions += sorted(set("%s -> %s" % (a, b) for a, b in ctx.I.calls_seen.items() if b.startswith("mir:")))
+    except Unencodable as e:
+        rep.inconcl("unencodable: %s" % e)
+    # ---- replay ----------------------------------------------------------------------------------------------------
+    k = 0
+    for ob, spec in failures:
+        k += 1
+        native = {}
+        reproduced = False
+        try:
+            if spec is not None:
+                native["cert_hash"] = native_cert_hash([spec])
+                reproduced = bool(native["cert_hash"]) and native["cert_hash"][0] == "equal"
+        except Exception as e:
+            native["error"] = str(e)
+        path = core.write_replay("C04", k, {"property": "C04", "role": ob.role, "obligation": ob.name, "spec": spec, "native_replay": native})
+        rep.violation(ob.role, "%s: two certificates differing only in %s hash the same: %s; native %s" % (ob.name, (ob.counterexample or {}).get("field"), spec, native), path, reproduced)
+        if reproduced:
+            rep.traces_validated += 1
+    return rep.finish()
+
+
+# ---- aligned-atom decomposition of "two hashes are equal" -------------------------------------------------------------------------
+# The direct query (string theory + injective uninterpreted encoders) answers `unsat` in milliseconds but does not produce models.
+# To obtain counterexamples, equality of two hash terms is rewritten — soundly — into a formula over the integers / keys the atoms
+# depend on: A.M1.B = A.M2.B <=> M1 = M2 (identical prefix / suffix atoms cancel), and two sequences of fixed-length atoms with
+# the same length profile are equal iff they are equal atom by atom; an injective encoder's results are equal iff its arguments are.
+def _flatten(t):
+    if z3.is_app(t) and t.decl().kind() == z3.Z3_OP_SEQ_CONCAT:
+        out = []
+        for c in t.children():
+            out += _flatten(c)
+        return out
+    if z3.is_string_value(t) and t.as_string() == "":
+        return []
+    return [t]
+
+
+def _fixed_len(a):
+    if z3.is_string_value(a):
+        return len(a.as_string())
+    if z3.is_app(a) and a.decl().kind() == z3.Z3_OP_UNINTERPRETED:
+        n = a.decl().name()
+        if n == "be8":
+            return 8
+        if n == "be4":
+            return 4
+        if n == "sha256":
+            return 32
+        if n == "hex_encode":
+            inner = _fixed_len(a.arg(0))
+            return None if inner is None else 2 * inner
+    return None
+
+
+def atom_eq(a, b):
+    if z3.eq(a, b):
+        return z3.BoolVal(True)
+    if z3.is_string_value(a) and z3.is_string_value(b):
+        return z3.BoolVal(a.as_string() == b.as_string())
+    ua = z3.is_app(a) and a.decl().kind() == z3.Z3_OP_UNINTERPRETED
+    ub = z3.is_app(b) and b.decl().kind() == z3.Z3_OP_UNINTERPRETED
+    if ua and ub and a.decl().name() == b.decl().name():
+        x, y = a.arg(0), b.arg(0)
+        if z3.is_string(x):
+            return hash_eq(x, y)
+        return x == y
+    return a == b  # residual: left to the solver (with the encoders' axioms)
+
+
+def hash_eq(t1, t2):
+    """formula equivalent to t1 = t2 for two byte-string terms built from concatenation and the injective encoders"""
+    A, Bs = _flatten(t1), _flatten(t2)
+    while A and Bs and z3.eq(A[0], Bs[0]):
+        A, Bs = A[1:], Bs[1:]
+    while A and Bs and z3.eq(A[-1], Bs[-1]):
+        A, Bs = A[:-1], Bs[:-1]
+    conds = []
+    # pair off aligned fixed-length atoms from both ends
+    while A and Bs and _fixed_len(A[0]) is not None and _fixed_len(A[0]) == _fixed_len(Bs[0]):
+        conds.append(atom_eq(A[0], Bs[0]))
+        A, Bs = A[1:], Bs[1:]
+    while A and Bs and _fixed_len(A[-1]) is not None and _fixed_len(A[-1]) == _fixed_len(Bs[-1]):
+        conds.append(atom_eq(A[-1], Bs[-1]))
+        A, Bs = A[:-1], Bs[:-1]
+    if not A and not Bs:
+        return z3.And(conds) if conds else z3.BoolVal(True)
+    la = [_fixed_len(x) for x in A]
+    lb = [_fixed_len(x) for x in Bs]
+    if all(x is not None for x in la + lb) and sum(la) != sum(lb):
+        return z3.BoolVal(False)
+    if len(A) == 1 and len(Bs) == 1:
+        conds.append(atom_eq(A[0], Bs[0]))
+        return z3.And(conds)
+    cat = lambda xs: z3.Concat(*xs) if len(xs) > 1 else (xs[0] if xs else z3.StringVal(""))
+    conds.append(cat(A) == cat(Bs))  # residual word equation
+    return z3.And(conds)
+
+
+def counterexample_search(ctx, outs, pairs, extra, axioms, timeout_s):
+    """path-pair-wise search for two inputs with equal hashes using the decomposition above; returns a model or None / 'unknown'"""
+    oks = [o for o in outs if o.kind == "return" and o.value.discr == 0]
+    unknown = False
+    for o1 in oks:
+        for o2 in oks:
+            pc2 = [z3.substitute(c, *pairs) for c in o2.pc]
+            pre = list(o1.pc) + pc2 + list(extra)
+            s = z3.Solver()
+            s.set("timeout", 5000)
+            s.add(pre)
+            if s.check() == z3.unsat:
+                continue
+            h1 = o1.value.payloads[0][0].term
+            h2 = z3.substitute(o2.value.payloads[0][0].term, *pairs)
+            eq = hash_eq(h1, h2)
+            ax = list(axioms) + [z3.substitute(a, *pairs) for a in axioms]
+            r = smt.check(pre + [eq] + (ax if "Concat" in str(eq) or "==" in str(z3.simplify(eq)) and z3.is_string(h1) and "str." in z3.simplify(eq).sexpr() else []), timeout_s=timeout_s)
+            if r.status == "sat":
+                return r.model
+            if r.status != "unsat":
+                unknown = True
+    return "unknown" if unknown else None
